@@ -841,6 +841,11 @@ func (ps *PruningStorer) extendActivePersisters(from uint32, to uint32) error {
 			}
 			reOpenedPersisters = append(reOpenedPersisters, p)
 			p.setPersisterAndIsClosed(persister, false)
+			continue
+		}
+		if p.epoch < to {
+			// still open, but not among the active persisters any more: it has to become active again as well
+			reOpenedPersisters = append(reOpenedPersisters, p)
 		}
 	}
 
